@@ -408,6 +408,8 @@ def check_config(ctx, lean, oracle, name, c, op):
         ctx.disagree(f"{name}.eval", case, repr(e)[:200], "evaluates", oracle=oracle, known_id=classify(name, c))
         return
     declared = (opgrid.size_of(op.output_shape), opgrid.size_of(op.input_shape))
+    if not dtype_check(ctx, oracle, name, c, op, case):
+        return
     D_np = linops_ref.ref_matrix(name, c)
     trivial = D_np.shape[0] == D_np.shape[1] and D_np.size > 0 and np.array_equal(D_np, np.eye(D_np.shape[0]))
     ctx.case(case, None if trivial else key)
@@ -445,6 +447,17 @@ def check_config(ctx, lean, oracle, name, c, op):
         dft_checks(ctx, lean, oracle, c, op, case)
     if name in ("AngularSpectrumPropagator", "FresnelPropagator"):
         optics_checks(ctx, lean, oracle, name, c, op, case)
+    if name == "XRayTransform3D" and c["voxel_spacing"] is None and c["det_spacing"] is None and list(c["det_shape"]) == list(c["shape"][:2]):
+        # identity rotation: voxel (i,j,k) lands exactly on detector pixel (i,j): the view is the sum along axis 2
+        for v, ang in enumerate(c["angles"]):
+            if all(a == 0.0 for a in ang):
+                x = common.dyadic(ctx.rng, tuple(c["shape"]), bits=3, scale=2.0)
+                y = np.asarray(op(opgrid.unflat(x.ravel(), op.input_shape, np.float64)))[v]
+                ctx.count("xray3d-axis-aligned-sum")
+                if not _close(y, x.sum(axis=2), 1e-6):
+                    ctx.disagree("linops.XRayTransform3D.axis_sum", dict(case, view=v), _summ(y), _summ(x.sum(axis=2)), oracle=oracle,
+                                 note="axis-aligned view does not equal the sum of the volume along the projection axis")
+                    return
     if name == "AbelTransform":
         x = common.dyadic(ctx.rng, tuple(c["shape"]), bits=3, scale=2.0).astype(np.float32)
         back = np.asarray(op.inverse(op(x)))
@@ -456,6 +469,36 @@ def check_config(ctx, lean, oracle, name, c, op):
         P = linops_ref.r_Pad({"shape": [int(s) for s in op.output_shape], "pad_width": c["crop_width"], "mode": "constant"})
         if P.shape == R.T.shape and not (np.array_equal(R, P.T) and np.array_equal(R @ P, np.eye(R.shape[0]))):
             ctx.disagree("linops.Crop.adjoint_of_pad", case, _summ(R), _summ(P.T), oracle=oracle)
+
+
+def dtype_check(ctx, oracle, name, c, op, case):
+    """dtype of the returned array = declared output dtype = documented promoted dtype (convolutions:
+    result_type(filter dtype, input dtype)); only the convolution classes are decided here (the rest is C12's)"""
+    import opgrid
+
+    if opgrid._is_nested(op.input_shape):
+        return True
+    x = common.dyadic(ctx.rng, tuple(op.input_shape), bits=3, scale=2.0).astype(op.input_dtype)
+    try:
+        y = op(opgrid.unflat(x.ravel(), op.input_shape, op.input_dtype))
+    except Exception:  # noqa: BLE001  (reported by the matrix comparison)
+        return True
+    got = np.dtype(opgrid.flat(y).dtype)
+    decl = np.dtype(op.output_dtype)
+    if name in ("CircularConvolve", "Convolve", "ConvolveByX"):
+        if c.get("route", "init") == "init" and not c.get("h_is_dft"):
+            hdt = np.complex128 if c["h"]["im"] is not None else (np.float32 if c["dtype"] == "float32" else np.float64)
+            doc = np.result_type(hdt, np.dtype(c["dtype"]))
+        else:
+            doc = decl
+        ctx.count(f"dtype-checked:{doc}")
+        if not (got == decl == doc):
+            ctx.disagree(f"linops.{name}.dtype", case, {"returned": str(got), "declared": str(decl)}, {"documented": str(doc)}, oracle=oracle,
+                         note="dtype of the result differs from the documented promotion result_type(filter, input)")
+            return False
+    elif got != decl:
+        ctx.count(f"returned-dtype-differs-from-declared:{name}")
+    return True
 
 
 def _summ(a):
